@@ -112,6 +112,11 @@ impl Frame {
                 Ok(Frame::Cancel(Cancel::from(crs)))
             }
             None => {
+                // Whole unknown message must be available to skip it
+                if available_data < MSG_LEN_SIZE + length {
+                    return Err(Error::Incomplete("Unknown message"));
+                }
+
                 // To skip unknown message
                 crs.set_position((MSG_LEN_SIZE + length) as u64);
                 Err(Error::UnknownId(msg_id))
